@@ -553,6 +553,96 @@ fn run_superposition_per_lane(ax: &Axis, out: &mut JobOut) {
     }
 }
 
+/// Verdicts are results too: whether build() accepts a data set and whether a query is in range must
+/// not depend on the units. (a) Periodic data whose last value misses the first by a few ulps up to
+/// 2^-22 relative, axis x cx, data x cd; (b) non-extrapolating Bilinear with queries k ulps inside /
+/// outside the range ends, x and y axes scaled by independent factors.
+fn run_verdicts(out: &mut JobOut) {
+    use ndarray::{Array1, Array2};
+    use ndarray_interp::interp1d::cubic_spline::{BoundaryCondition, CubicSpline};
+    use ndarray_interp::interp1d::Interp1DBuilder;
+    use ndarray_interp::interp2d::{Bilinear, Interp2DBuilder};
+    let p2 = |e: i32| 2.0f64.powi(e);
+    let factors = [p2(-40), p2(-20), p2(-3), 1.0, p2(5), p2(20), p2(40)];
+    let x = [-2.0, -1.25, 0.5, 1.0, 3.5, 4.0];
+    let n = x.len();
+    let base: Vec<f64> = (0..n).map(|i| ((i * 3) as f64 * 0.37).sin() * 2.0 + 1.5).collect();
+    // (a)
+    let mut gaps: Vec<(String, f64)> = vec![("0".into(), 0.0)];
+    for k in [1u64, 2, 4, 16, 256, 65536] {
+        gaps.push((format!("{k} ulp"), f64::from_bits(base[0].to_bits() + k) - base[0]));
+    }
+    for e in [-40, -30, -22, -16] {
+        gaps.push((format!("2^{e} relative"), base[0] * p2(e)));
+    }
+    for (gname, gap) in &gaps {
+        let mut verdicts: Vec<(f64, f64, String)> = vec![];
+        for &cx in &factors {
+            for &cd in &factors {
+                let xa: Array1<f64> = x.iter().map(|v| v * cx).collect();
+                let mut d: Vec<f64> = base.clone();
+                d[n - 1] = d[0] + gap;
+                let da: Array1<f64> = d.iter().map(|v| v * cd).collect();
+                let r = catch(|| Interp1DBuilder::new(da).x(xa).strategy(CubicSpline::new().boundary(BoundaryCondition::Periodic)).build().map(|_| ()));
+                let v = match r { Ok(Ok(())) => "Ok".to_string(), Ok(Err(e)) => nimc::subj::builder_err_kind(&e).to_string(), Err(_) => "panic".to_string() };
+                verdicts.push((cx, cd, v));
+                out.evals += 1;
+                out.nontrivial += 1;
+                out.transitions += 1;
+            }
+        }
+        out.states += 1;
+        let first = verdicts[0].2.clone();
+        out.outcome(format!("periodic-gap:{}", first));
+        if let Some((cx, cd, v)) = verdicts.iter().find(|v| v.2 != first) {
+            out.violate(
+                format!("verdict:periodic:{gname}").replace(' ', ""),
+                format!("Periodic data whose last value misses the first by {gname}: build() says {first} with axis x {:e}, data x {:e} but {v} with axis x {cx:e}, data x {cd:e}", verdicts[0].0, verdicts[0].1),
+                Json::str(gname),
+            );
+        }
+    }
+    // (b)
+    let y = [0.25, 1.0, 2.5, 7.0];
+    let z = Array2::from_shape_fn((n, y.len()), |(i, j)| ((i * 4 + j) as f64 * 0.37).sin());
+    let around = |v: f64| -> Vec<f64> {
+        let mut q = vec![v];
+        for k in [1u64, 2, 16, 1 << 10, 1 << 20, 1 << 30, 1 << 40] {
+            let (up, down) = if v > 0.0 { (v.to_bits() + k, v.to_bits() - k) } else { (v.to_bits() - k, v.to_bits() + k) };
+            q.push(f64::from_bits(up));
+            q.push(f64::from_bits(down));
+        }
+        q
+    };
+    let qx: Vec<f64> = around(x[0]).into_iter().chain(around(x[n - 1])).collect();
+    let qy: Vec<f64> = around(y[0]).into_iter().chain(around(y[y.len() - 1])).collect();
+    for &cx in &factors {
+        for &cy in &factors {
+            let xa: Array1<f64> = x.iter().map(|v| v * cx).collect();
+            let ya: Array1<f64> = y.iter().map(|v| v * cy).collect();
+            let ip = Interp2DBuilder::new(z.clone()).x(xa).y(ya).strategy(Bilinear::new()).build().expect("valid grid");
+            out.states += 1;
+            for &a in &qx {
+                for &b in &qy {
+                    let inside = a >= x[0] && a <= x[n - 1] && b >= y[0] && b <= y[y.len() - 1];
+                    let got = matches!(catch(|| ip.interp_scalar(a * cx, b * cy)), Ok(Ok(_)));
+                    out.evals += 1;
+                    out.nontrivial += 1;
+                    if got != inside {
+                        out.violate(
+                            format!("verdict:bilinear:{cx:e}:{cy:e}"),
+                            format!("Bilinear (no extrapolation), axes in units of {cx:e} (x) and {cy:e} (y): the query ({a:e}, {b:e}) [original units] is {} although it lies {} the closed range", if got { "answered" } else { "rejected" }, if inside { "inside" } else { "outside" }),
+                            Json::f64s(&[a, b, cx, cy]),
+                        );
+                        return;
+                    }
+                }
+            }
+        }
+    }
+    out.sample = Some(Json::str("verdicts under unit changes"));
+}
+
 fn body(ctx: &Ctx) -> (Summary, Meta) {
     let quick = ctx.quick();
     let mut jobs = vec![];
@@ -600,13 +690,18 @@ fn body(ctx: &Ctx) -> (Summary, Meta) {
         }
         out
     });
+    sum.merge(run_jobs(ctx, "verdicts-under-unit-changes", &[()], |_| "verdicts".to_string(), |_| {
+        let mut out = JobOut::default();
+        run_verdicts(&mut out);
+        out
+    }));
     sum.merge(run_jobs(ctx, "superposition-per-lane-conditions", &sp_axes, |a| format!("superposition-per-lane:{}", a.name), |a| {
         let mut out = JobOut::default();
         run_superposition_per_lane(a, &mut out);
         out
     }));
     let meta = Meta {
-        rule: "for every (axis, strategy/boundary configuration): a base interpolator and twins in converted units: axis and queries x cx, data x cd (derivative boundary values converted with cd/cx and cd/cx^2), grid shifts of axis+queries, and the sum of every pair of lanes; in-range and extrapolated queries. Powers of two, negation and grid shifts must be bit-identical; factors 3 and 1/10 and superposition within rounding. Phase superposition-per-lane-conditions: data sets D1 = [u,u,v], D2 = [v,w,w] (neighbouring lanes bit-identical) under every ordered pair of different homogeneous boundary pairs {NotAKnot,Natural,Clamped}^2 per lane: S(D1+D2) = S(D1)+S(D2) lane by lane. Every comparison is non-trivial.".into(),
+        rule: "for every (axis, strategy/boundary configuration): a base interpolator and twins in converted units: axis and queries x cx, data x cd (derivative boundary values converted with cd/cx and cd/cx^2), grid shifts of axis+queries, and the sum of every pair of lanes; in-range and extrapolated queries. Powers of two, negation and grid shifts must be bit-identical; factors 3 and 1/10 and superposition within rounding. Phase verdicts-under-unit-changes: (a) Periodic data whose last value misses the first by 0 / 1..65536 ulps / 2^-40..2^-16 relative: build()'s verdict is the same for all 49 (cx, cd) pairs of powers of two; (b) non-extrapolating Bilinear: queries 0, 1, 2, .. 2^40 ulps inside / outside each range end are answered iff in range for all 49 independent (cx, cy) pairs. Phase superposition-per-lane-conditions: data sets D1 = [u,u,v], D2 = [v,w,w] (neighbouring lanes bit-identical) under every ordered pair of different homogeneous boundary pairs {NotAKnot,Natural,Clamped}^2 per lane: S(D1+D2) = S(D1)+S(D2) lane by lane. Every comparison is non-trivial.".into(),
         bounds: format!("{njobs} (type, axis/grid, configuration) jobs; {} (cx, cd) pairs from cx in {{2^-20,2^-3,2,2^5,2^20,3,1/10}}, cd in {{2^-20,1/2,-1,2^7,2^20,3,-1/10}}; shifts {:?}; 2-D: independent cx, cy; tier {}", factors(quick, false).len(), SHIFTS, ctx.tier.name()),
         assumptions: vec!["inexact factors: tolerance K eps |result| (4 + 2 max|x|/h_min) (the rounded knots perturb the interval lengths)".into()],
         extra: vec![],
